@@ -28,6 +28,7 @@ type zzSpecStore struct {
 	deletes    [][2]uint64
 	failAppend func() error // optional fault injection
 	gateHead   bool
+	gateAppend bool // only Append is a scheduling point
 }
 
 func zzNewSpecStore() *zzSpecStore { return &zzSpecStore{hdrs: map[uint64]*zh.Hdr{}} }
@@ -108,7 +109,7 @@ func (s *zzSpecStore) Append(_ context.Context, hs ...*zh.Hdr) error {
 	if len(hs) == 0 {
 		return nil
 	}
-	if s.gateHead {
+	if s.gateHead || s.gateAppend {
 		zz.Gate("store:append") // optional scheduling point (see Head)
 	}
 	if s.failAppend != nil {
